@@ -33,13 +33,19 @@ type cfg struct {
 	Timeout  time.Duration `json:"timeout"`
 	Simple   bool          `json:"generic_pool_over_simple_strategy"`
 	Yields   int           `json:"yields_at_queue_points"`
+	SmallWin bool          `json:"sample_window_of_10_completions"` // the limiter's sample window closes after 11 completions (any duration)
+	Collide  bool          `json:"timeouts_collide_with_releases"`
 }
 
 var orderings = map[string]pool.Ordering{"random": pool.OrderingRandom, "fifo": pool.OrderingFIFO, "lifo": pool.OrderingLIFO}
 
 func build(c cfg) core.Limiter {
 	if c.Pool == "fixed" {
-		p, err := pool.NewFixedPool("c19", orderings[c.Ordering], c.Limit, -1, -1, -1, -1, c.Backlog, c.Timeout, nil, nil)
+		ws, minW, maxW, thr := -1, time.Duration(-1), time.Duration(-1), time.Duration(-1)
+		if c.SmallWin {
+			ws, minW, maxW, thr = 10, 1, 1, 0
+		}
+		p, err := pool.NewFixedPool("c19", orderings[c.Ordering], c.Limit, ws, minW, maxW, thr, c.Backlog, c.Timeout, nil, nil)
 		if err != nil {
 			panic(err)
 		}
@@ -49,7 +55,11 @@ func build(c cfg) core.Limiter {
 	if c.Simple {
 		st = strategy.NewSimpleStrategy(c.Limit)
 	}
-	dl, err := limiter.NewDefaultLimiter(limit.NewFixedLimit("c19", c.Limit, nil), 1e9, 1e9, 1e5, 100,
+	minW, thr, ws := int64(1e9), int64(1e5), 100
+	if c.SmallWin {
+		minW, thr, ws = 1, 0, 10
+	}
+	dl, err := limiter.NewDefaultLimiter(limit.NewFixedLimit("c19", c.Limit, nil), minW, minW, thr, ws,
 		st, limit.NoopLimitLogger{}, core.EmptyMetricRegistryInstance)
 	if err != nil {
 		panic(err)
@@ -84,6 +94,7 @@ func genCfg(r *rand.Rand) cfg {
 	c.Callers = c.Limit + 1 + r.IntN(c.Backlog)
 	c.Simple = c.Pool == "generic" && r.IntN(2) == 0
 	c.Yields = []int{0, 100, 1500}[r.IntN(3)]
+	c.SmallWin = r.IntN(2) == 0
 	return c
 }
 
@@ -122,9 +133,22 @@ func virtualCase(t *testing.T, idx int64, r *rand.Rand) {
 			maxHold = cs[i].Hold
 		}
 	}
+	// colliding variant: everybody arrives at once, every hold lasts H, the backlog timeout is H or 2H - time-outs of queued
+	// callers fire at the very instants holders release (refusals are legitimate here; capacity must survive)
+	c.Collide = c.Ordering != "random" && r.IntN(4) == 0
+	if c.Collide {
+		h := time.Duration(1+r.IntN(20)) * time.Millisecond
+		for _, cl := range cs {
+			cl.Arrive, cl.Hold, cl.CancelAfter = 0, h, -1
+		}
+		spread, maxHold = 0, h
+	}
 	// longest possible wait: arrivals spread + everybody else's hold time
 	longest := spread + time.Duration(c.Callers)*maxHold
 	c.Timeout = 2*longest + time.Second
+	if c.Collide {
+		c.Timeout = maxHold * time.Duration(1+r.IntN(2))
+	}
 	if c.Ordering == "random" {
 		// the blocking limiter's timeout is only a poll period: never a reason to refuse
 		c.Timeout = []time.Duration{0, 7 * time.Millisecond, c.Timeout}[r.IntN(3)]
@@ -132,8 +156,11 @@ func virtualCase(t *testing.T, idx int64, r *rand.Rand) {
 	var holders, maxHolders atomic.Int64
 	over := atomic.Bool{}
 	var stuck []int
+	lostCapacity := 0
 	setYields(c.Yields)
 	defer setYields(0)
+	rt.Scenario(fmt.Sprintf("C19/%s-%s", c.Pool, c.Ordering), idx, c)
+	defer rt.ScenarioDone()
 	bubble(t, func(t *testing.T) {
 		p := build(c)
 		start := time.Now()
@@ -188,6 +215,25 @@ func virtualCase(t *testing.T, idx int64, r *rand.Rand) {
 		synctest.Wait()
 		time.Sleep(c.Timeout + time.Second)
 		synctest.Wait()
+		// everything completed: the pool must again hand out exactly its limit, at once
+		if len(stuck) == 0 {
+			var got []core.Listener
+			for i := 0; i < c.Limit; i++ {
+				ctx, cancel := context.WithTimeout(context.Background(), time.Millisecond)
+				t0 := time.Now()
+				l, ok := p.Acquire(ctx)
+				cancel()
+				if !ok || l == nil || time.Since(t0) != 0 {
+					lostCapacity = c.Limit - i
+					break
+				}
+				got = append(got, l)
+			}
+			for _, l := range got {
+				l.OnIgnore()
+			}
+			synctest.Wait()
+		}
 		if c.Ordering == "random" { // flush the blocking limiter's helper goroutines: one more grant/complete broadcasts
 			if l, ok := p.Acquire(context.Background()); ok {
 				l.OnIgnore()
@@ -204,13 +250,20 @@ func virtualCase(t *testing.T, idx int64, r *rand.Rand) {
 		rt.Violation("C19/"+name+"/more-holders-than-limit", idx, rt.J{"config": c, "max_holders": maxHolders.Load(), "callers": cs})
 		return
 	}
+	if c.Collide {
+		rt.Count("virtual_scenarios_with_colliding_timeouts", 1)
+	}
+	if lostCapacity > 0 {
+		rt.Violation("C19/"+name+"/pool-lost-capacity-after-every-token-completed", idx, rt.J{"config": c, "units_not_admitted_again": lostCapacity, "callers": cs})
+		return
+	}
 	if len(stuck) > 0 {
 		rt.Violation("C19/"+name+"/caller-still-blocked-after-every-holder-released", idx, rt.J{"config": c, "stuck_callers": stuck, "callers": cs})
 		return
 	}
 	waited := 0
 	for i, cl := range cs {
-		mayBeRefused := cl.CancelAfter >= 0 // a caller that cancelled may legitimately be refused (or served: pools with a queue ignore cancellation)
+		mayBeRefused := cl.CancelAfter >= 0 || c.Collide // a caller that cancelled may legitimately be refused (or served: pools with a queue ignore cancellation)
 		if !cl.ok && !mayBeRefused {
 			rt.Violation("C19/"+name+"/queued-caller-refused", idx, rt.J{"config": c, "caller": i, "arrived": cl.Arrive.String(), "returned": cl.granted.String(), "callers": cs})
 			return
